@@ -24,7 +24,7 @@ PROPERTY = "C18"
 LEVEL = "exploration"
 RULE = ("(A) filter expression trees (depth <= 4) over leaves {bare selectors with globs, Meta.* selectors, field comparisons with "
         "all 10 operators against literals of every kind (str, bytes, int, hex, float, None/True/False, 3- and 4-tuples), enum and "
-        "Meta right-hand sides, 4-part subfield selectors}, rendered fully parenthesised, evaluated on generated LLUDP (fresh and "
+        "Meta right-hand sides, 4-part subfield selectors, selectors rooted at the entry type}, rendered fully parenthesised, evaluated on generated LLUDP (fresh and "
         "frozen), EQ and HTTP entries with and without short-circuit, compared with a fold of the leaf truths and (for field "
         "comparisons) an independent evaluator; (B) operation sequences {log entry of 3 kinds, set_filter from a pool, pause, "
         "resume, clear, overflow bursts} on FilteringMessageLogger (retention 3..8) and a two-logger WrappingMessageLogger against "
